@@ -173,6 +173,8 @@ def adversarial(g, depth):
                   ["by_key", ["dict", ["str"], m, {"sp": "builtin"}]], ["aliased", al],
                   ["opt", ["union", [mo, ["none"]], {"sp": r.choice(["optional", "pipe", "typing"])}]],
                   ["pair", ["tuple", [["cls", a], ["cls", b], m], {"sp": "builtin"}]]]
+    if r.random() < 0.3:
+        hub_fields.append(["aliased2", add_alias(g, al)])      # a wrapper of a wrapper
     r.shuffle(hub_fields)
     hub_fields = hub_fields[: r.randint(5, len(hub_fields))]
     if r.random() < 0.08:
@@ -183,7 +185,9 @@ def adversarial(g, depth):
     hub = add_class(g, _fresh_name(g.prog, hub_mod, "Hub"), hub_mod, hub_kind, hub_fields)
     if r.random() < 0.5 and hub_kind != "namedtuple":
         hc = g.prog["classes"][hub]
-        hc["fields"].append(["again", ["union", [["cls", hub], ["none"]], {"sp": "optional"}]])
+        # the cycle closes directly or through a NewType / alias of the class itself
+        back = ["cls", hub] if r.random() < 0.5 else add_alias(g, ["cls", hub])
+        hc["fields"].append(["again", ["union", [back, ["none"]], {"sp": "optional"}]])
         if hub_kind == "typeddict":
             pass  # not required
         else:
@@ -771,5 +775,6 @@ def replay(failure):
                               if not d["what"].startswith("the validator")][:4],
             "oracle": [f.get("detail", f["what"]) for f in res.failures][:4],
             "real": ro["cases"][0] if ro.get("cases") else None}
-    print(json.dumps(show, indent=1, default=str)[:6000])
+    for k, v in show.items():
+        print(f"{k}: " + json.dumps(v, default=str)[:1500])
     return bool(res.failures or res.disagreements)
